@@ -37,7 +37,12 @@ Probes == { Xfer(0, "uusdc", 1000, fw, acts) : fw \in ProbeFws, acts \in { <<>>,
 PtProbes == { Xfer(0, "uusdc", 1000, [FwINT("U") EXCEPT !.pt = n], <<>>) : n \in {1, 2, 3, 64, 65} }
              \cup { Xfer(0, "uusdc", 1000, [FwCCTP(0, "MINT_A", "NONE") EXCEPT !.pt = 2], <<>>) }
 
-MCAlphabet == ProtoMsgs \cup CCMsgs \cup ActMsgs \cup ParamMsgs \cup OtherSigners \cup Probes \cup PtProbes \cup {ReimportIn}
+\* payloads naming an identifier that has NO controller on the chain (swap action, IBC as outgoing
+\* route): refused - also while that very identifier is paused (both pause messages accept it)
+NoCtlProbes == { Xfer(0, "uusdc", 1000, FwINT("U"), <<[id |-> "SWAP", at |-> "FEE", fees |-> <<Bps(100, "F1")>>]>>),
+                 Xfer(0, "uusdc", 1000, [FwINT("U") EXCEPT !.pid = "IBC"], <<>>),
+                 Xfer(0, "uusdc", 1000, [FwCCTP(0, "MINT_A", "NONE") EXCEPT !.pid = "IBC"], <<>>) }
+MCAlphabet == NoCtlProbes \cup ProtoMsgs \cup CCMsgs \cup ActMsgs \cup ParamMsgs \cup OtherSigners \cup Probes \cup PtProbes \cup {ReimportIn}
 SmallAlphabet == { PauseProtocol("AUTH", "CCTP"), UnpauseProtocol("AUTH", "CCTP"), PauseProtocol("AUTH", "INT"),
                    PauseCC("AUTH", "CCTP", <<Cp0>>), PauseCC("AUTH", "CCTP", <<Cp0, Cp1>>), UnpauseCC("AUTH", "CCTP", <<Cp0>>),
                    PauseCC("AUTH", "HYP", <<Cp1>>), PauseCC("AUTH", "CCTP", <<Cp1, CpChan>>), PauseCC("AUTH", "CCTP", <<>>),
@@ -45,6 +50,7 @@ SmallAlphabet == { PauseProtocol("AUTH", "CCTP"), UnpauseProtocol("AUTH", "CCTP"
                    UpdateParams("AUTH", 2), UpdateParams("AUTH", 0), UpdateParams("M", 7), PauseProtocol("M", "CCTP"), ReimportIn,
                    PauseCC("M", "CCTP", <<>>), UnpauseCC("M", "CCTP", <<>>), UnpauseProtocol("M", "CCTP"), UnpauseAction("M", "FEE") }
                  \cup Probes \cup { Xfer(0, "uusdc", 1000, [FwINT("U") EXCEPT !.pt = n], <<>>) : n \in {2, 3} }
+                 \cup NoCtlProbes \cup { PauseAction("AUTH", "SWAP"), PauseProtocol("AUTH", "IBC") }
 
 StepProps == [][ /\ Prop_C08(last') /\ Prop_C09(last') /\ Prop_C10(last') /\ Prop_C18(last')
                  /\ Prop_C01(last') /\ MC_C02(last') /\ Prop_C05(last') /\ Prop_C12(last') /\ Prop_C17(last') ]_vars
